@@ -293,3 +293,13 @@ fn parse_integer(value: &RespValue) -> Option<i64> {
         _ => None,
     }
 }
+
+/// Verification hook: the command handler of a RESP connection, callable from outside the crate.
+#[cfg(feature = "verif")]
+pub async fn verif_process_command(
+    value: RespValue,
+    limiter: &RateLimiterHandle,
+    metrics: &Arc<Metrics>,
+) -> RespValue {
+    process_command(value, limiter, metrics).await
+}
